@@ -738,13 +738,41 @@ def bfs_oracle(R, bonds):
     return paths, [e[1] for e in events]
 
 
+def pid_rounds(R, paths):
+    """run the REAL _make_pid under sys.settrace and snapshot both path tables every time control reaches `for k in pid1:`
+    (after the first loop, after every round of the main loop, and at the end); returns (result, [(pid1 term, pid2 term)])"""
+    import inspect
+    import sys
+    src, first = inspect.getsourcelines(R._make_pid)
+    lines = [first + k for k, l in enumerate(src) if l.strip() == 'for k in pid1:']
+    if len(lines) != 1:
+        raise RuntimeError('_make_pid has an unexpected shape')
+    code = R._make_pid.__code__
+    snaps = []
+
+    def tracer(frame, event, arg):
+        if frame.f_code is not code:
+            return None
+        if event == 'line' and frame.f_lineno == lines[0]:
+            loc = frame.f_locals
+            snaps.append((d1_term(loc['pid1']), d1_term(loc['pid2'])))
+        return tracer
+    old = sys.gettrace()
+    sys.settrace(tracer)
+    try:
+        res = R._make_pid(paths)
+    finally:
+        sys.settrace(old)
+    return res, snaps
+
+
 def d1_term(p):
     """pid1 / pid2 as nested association lists in insertion order"""
     return lst([tup(zraw(i), lst([tup(zraw(j), lst([tup(tup(zraw(k[0]), zraw(k[1])), zl(c)) for k, c in cell.items()])) for j, cell in row.items()]))
                 for i, row in p.items()])
 
 
-def gen_cases(ck, m, tag, stats, fam=()):
+def gen_cases(ck, m, tag, stats, fam=(), tables=True):
     """the candidate generation and the whole perception: _bfs (set orders recorded from the real run by sys.settrace and handed
     to the model as its oracle), _make_pid (both path tables in insertion order and the distances), _c_set, and
     sssr_model == _rings_filter(_c_set(_make_pid(_bfs(_skin_graph(g)))), rings_count)"""
@@ -760,8 +788,17 @@ def gen_cases(ck, m, tag, stats, fam=()):
         ck.unchecked('the set orders of _bfs can no longer be recorded', str(e))
         return '', []
     paths = [tuple(p) for p in paths]
-    pid1, pid2, dist = R._make_pid(paths)
-    small = len(sk) <= 9
+    rounds = None
+    if tables and len(sk) <= 7 and ROUNDS_BUDGET[0] > 0:
+        try:
+            (pid1, pid2, dist), rounds = pid_rounds(R, paths)
+            ROUNDS_BUDGET[0] -= 1
+        except RuntimeError as e:
+            ck.unchecked('the rounds of _make_pid can no longer be recorded', str(e))
+            return '', []
+    else:
+        pid1, pid2, dist = R._make_pid(paths)
+    small = tables and len(sk) <= 9
     if small:
         t1, t2 = d1_term(pid1), d1_term(pid2)
         tri = lst([tup(zraw(i), zraw(j), zraw(int(v))) for i, row in dist.items() for j, v in row.items()])
@@ -787,6 +824,12 @@ def gen_cases(ck, m, tag, stats, fam=()):
         cases += [('corr', tag, '_make_pid: pid1', f'c_pid1 pa{i} {t1}'), ('corr', tag, '_make_pid: pid2', f'c_pid2 pa{i} {t2}'),
                   ('corr', tag, '_make_pid: distances', f'c_dist pa{i} {tri}')]
         ck.count('candidate generation: path tables compared')
+    if rounds is not None:
+        # intermediate states of the most intricate function: both tables after the first loop and after every round
+        for r, (a1, a2) in enumerate(rounds):
+            cases.append(('corr', tag, f'_make_pid: tables after {r} rounds', f'c_pid_round pa{i} {r}%nat {a1} {a2}'))
+        ck.count('candidate generation: molecules with every round of _make_pid compared')
+        ck.count('candidate generation: rounds of _make_pid compared', len(rounds))
     if len(cands) <= 200:
         cases.append(('corr', tag, '_c_set(_make_pid(paths))', f'c_cset pa{i} (Ok {zll(cands)})'))
     cases.append(('corr', tag, 'sssr_model == the whole perception', f'c_sssr gg{i} or{i} ({res})'))
@@ -959,6 +1002,7 @@ def report(ck, key, *a, **kw):
     return True
 
 
+ROUNDS_BUDGET = [0]    # molecules whose _make_pid is compared round by round (set per run)
 INVALID = set()   # tags of inputs whose sssr the Python validity oracle rejected (or that raised)
 GAP_TAGS = set()  # tags of inputs that belong to a recorded gap family (outside the claimed domain)
 
@@ -1399,7 +1443,7 @@ def run(ck):
     import time
     t0 = time.time()
     timing = ck.extra.setdefault('timing_s', {})
-    proved = common.standard_proof_steps(ck, translators=[], extra_targets=['model/RingsGenSpec.vo'])   # C06 depends on no generated table
+    proved = common.standard_proof_steps(ck, translators=['rings'], extra_targets=['model/RingsGenSpec.vo'])   # tools/gen_rings.py -> gen/RingsConsts.v
     timing['proof build + audit'] = round(time.time() - t0, 1)
     t0 = time.time()
     quick = ck.tier == 'quick'
@@ -1408,6 +1452,7 @@ def run(ck):
     if not quick and 'VERIF_JOBS' not in os.environ:
         batch.workers = max(JOBS, min(12, os.cpu_count() or 4))     # thorough: ~1500 case files
     INVALID.clear()
+    ROUNDS_BUDGET[0] = 80 if ck.tier == 'quick' else 1500
     CE_CLASS.clear()
     GAP_TAGS.clear()
     sent = set()
@@ -1492,6 +1537,7 @@ def run(ck):
                 except Exception as e:
                     stats[f'not sent to Coq ({type(e).__name__})'] += 1
 
+    six = [0]
     erng = random.Random(f'{ck.seed}:c06:edits')
     trng = random.Random(f'{ck.seed}:c06:transactions')
     tx_budget = [150 if quick else 1500]
@@ -1535,6 +1581,12 @@ def run(ck):
                     batch.add(*mol_cases(r, f'graph{n}:{es} renumbered', fam))
                     sent.add(f'graph{n}:{es} renumbered')
                     n_coq += 1
+            elif not quick and n == 6 and nu >= 2:
+                # thorough: a larger exhaustive space for the end-to-end model: every third labelled 6-atom graph with at least two rings
+                six[0] += 1
+                if six[0] % 3 == 0:
+                    batch.add(*gen_cases(ck, m, f'graph{n}:{es}', stats, fam, tables=False))
+                    ck.count('exhaustive 6-atom graphs through the end-to-end model (thorough)')
     timing['exhaustive small graphs (python)'] = round(time.time() - t0, 1)
     t0 = time.time()
     # ---- generated / corpus / test-set molecules
